@@ -232,6 +232,31 @@ type MsgCase struct {
 	Target int   `json:"target_size"` // approximate packed size
 	Chunks []int `json:"chunks"`
 	ID     uint16 `json:"id"`
+	Exact  bool   `json:"exact"` // the packed size is exactly Target (boundary sizes)
+}
+
+// buildExact returns a message whose uncompressed packed size is exactly target (target >= 1500).
+func buildExact(target int, id uint16) *dns.Msg {
+	m := new(dns.Msg)
+	m.Id = id
+	m.Response = true
+	m.Question = []dns.Question{{Name: "c16.example.", Qtype: dns.TypeTXT, Qclass: dns.ClassINET}}
+	const base, rr = 12 + 17, 13 + 10 + 1 + 200 // header+question; one TXT record with a 200-byte string
+	n := (target - base) / rr
+	rem := (target - base) - n*rr
+	for i := 0; i < n; i++ {
+		l := 200
+		if rem > 0 {
+			add := rem
+			if add > 55 {
+				add = 55
+			}
+			l += add
+			rem -= add
+		}
+		m.Answer = append(m.Answer, &dns.TXT{Hdr: dns.RR_Header{Name: "c16.example.", Rrtype: dns.TypeTXT, Class: dns.ClassINET, Ttl: uint32(i)}, Txt: []string{strings.Repeat(string(rune('a'+i%26)), l)}})
+	}
+	return m
 }
 
 func buildMsg(target int, id uint16) *dns.Msg {
@@ -260,7 +285,10 @@ func buildMsg(target int, id uint16) *dns.Msg {
 
 func genMsgCase(t *rapid.T) MsgCase {
 	c := MsgCase{Chunks: genChunks(t), ID: uint16(rapid.IntRange(0, 65535).Draw(t, "id"))}
-	switch rapid.IntRange(0, 3).Draw(t, "k") {
+	switch rapid.IntRange(0, 4).Draw(t, "k") {
+	case 4:
+		c.Exact = true
+		c.Target = rapid.SampledFrom([]int{65535, 65534, 65533, 65536, 65537, 65600, 8187, 8188, 8189, 8190, 8191, 8192, 8193, 8194, 16384, 32767, 32768}).Draw(t, "exact")
 	case 0:
 		c.Target = rapid.IntRange(8100, 8300).Draw(t, "around8k")
 	case 1:
@@ -275,7 +303,16 @@ func genMsgCase(t *rapid.T) MsgCase {
 
 func runMsg(c MsgCase, ctx *hx.Ctx) *hx.Failure {
 	m := buildMsg(c.Target, c.ID)
+	if c.Exact {
+		m = buildExact(c.Target, c.ID)
+	}
 	wire, perr := m.Copy().Pack()
+	if c.Exact && perr == nil && len(wire) != c.Target {
+		return hx.Failf("C16/harness", "buildExact(%d) packs to %d bytes", c.Target, len(wire))
+	}
+	if c.Exact {
+		ctx.Classf("exact-size=%d", c.Target)
+	}
 	// PackTCPBuffer
 	pb, err := pool.PackTCPBuffer(m)
 	if perr != nil || len(wire) > 65535 {
